@@ -70,6 +70,14 @@ def check(ctx, tree, leaves0, dsl, cfg):  # noqa: C901, PLR0912
         ctx.violation('leaves-vs-reference', _key('leaves-vs-reference', dsl), case,
                       f'engine {leaves!r} reference {flat.leaves!r}')
         return
+    # the same order / classification rules for the other two traversal engines (lazy iterator, path walk)
+    for name, fn in (('tree_iter', lambda: list(optree.tree_iter(tree, **kw))),
+                     ('tree_flatten_with_path', lambda: optree.tree_flatten_with_path(tree, **kw)[1])):
+        got = fn()
+        if not same_objects(got, flat.leaves) and not (
+                cfg['pred'] == 'leafbox' and any(t and t[-1][1] is U.P for t in flat.typed)):
+            ctx.violation(f'{name}-vs-reference', _key(f'{name}-vs-reference', dsl), case,
+                          f'{name} {got!r} reference {flat.leaves!r}')
     why = e1.spec_vs_desc(spec, flat.desc)
     if why:
         ctx.violation('structure-vs-reference', _key('structure-vs-reference', dsl), case, why)
@@ -114,7 +122,7 @@ def check(ctx, tree, leaves0, dsl, cfg):  # noqa: C901, PLR0912
             ctx.violation('permutation-invariance', _key('permutation-invariance', dsl), case,
                           f'{l2!r},{s2!r} vs {leaves!r},{spec!r}')
     # law (b): none_is_leaf=False leaves == none_is_leaf=True leaves minus None
-    if not cfg['nil'] and cfg['pred'] != 'always':
+    if not cfg['nil'] and cfg['pred'] not in ('always', 'is_none', 'tuple_or_none'):
         lt = optree.tree_leaves(tree, is_leaf=kw['is_leaf'], none_is_leaf=True, namespace=cfg['ns'])
         if not same_objects([x for x in lt if x is not None], leaves):
             ctx.violation('none-law', _key('none-law', dsl), case, f'{lt!r} vs {leaves!r}')
